@@ -10,9 +10,10 @@ import BufrModel.Drv.PathOp
 import BufrModel.Drv.CoderOp
 import BufrModel.Drv.ScriptOp
 import BufrModel.Drv.SectionsOp
+import BufrModel.Drv.SubsetOp
 open Lean Bufr.Drv
 
-/-- stateless operations: one line per op (keep sorted by property to ease merging) -/
+/-- stateless operations: one line per op -/
 def statelessOps : List (String × (Json → J Json)) :=
   ("bits", opBits) ::
   ("path", opPath) ::
@@ -24,8 +25,8 @@ def statelessOps : List (String × (Json → J Json)) :=
   ("msg-encode", opMsgEncode) ::
   ("msg-decode", opMsgDecode) ::
   ("mdquery", opMdQuery) ::
+  ("subset", opSubset) ::
   []
-
 
 /-- operations that read or change the driver state -/
 def statefulOps : List (String × (DrvState → Json → J (DrvState × Json))) :=
